@@ -3,6 +3,7 @@ CONSTANTS
   Groups = {1, 2, 3}
   MaxReq = 5
   MaxDepth = 0
+  MaxRestart = 0
   Mode = "mc"
 INIT Init
 NEXT Next
